@@ -20,16 +20,28 @@ Definition aframe := (N * list tree)%type.
 Definition fr_of (f : aframe) : Engine.frame := mkFr (fst f) (snd f).
 Definition st_of_a (s : list aframe) : list Engine.frame := map fr_of s.
 
-Definition conv_err (e : perr) : Prop := e = PAttr \/ e = PIndex.
+Definition conv_err (e : perr) : Prop := e = PAttr \/ e = PIndex \/ e = PGuard.
 
 Notation pops' := (pops tree N label N mk_node (final G) (rule_of G) (plansI TR)).
 Notation shift' := (shift tree N label (plansI TR)).
 Notation feed' := (LL1.feed tree N label N mk_node (final G) (rule_of G) (plansI TR)).
 
+Lemma create_params_err l e : create_params G l = PErr e -> conv_err e.
+Proof.
+  unfold create_params. destruct l as [|first rest]; [discriminate|].
+  destruct (negb (is_nil_t rest)); [intros H; inversion H; right; right; reflexivity|].
+  destruct (is_name first || match node_rule first with Some r => r =? r_fpdef G | None => false end); [discriminate|].
+  destruct (is_op first star); [discriminate|].
+  match goal with |- match ?c with Some _ => _ | None => _ end = _ -> _ => destruct c end; [discriminate|].
+  intros H; inversion H; left; reflexivity.
+Qed.
+
 Lemma convert_node_err r ns e : convert_node G r ns = PErr e -> conv_err e.
 Proof.
   unfold convert_node. destruct (r =? r_suite G).
-  - destruct ns as [|c0 [|c1 rest]]; intros H; inversion H; right; reflexivity.
+  - destruct ns as [|c0 [|c1 rest]]; [intros H; inversion H; right; left; reflexivity|discriminate|].
+    destruct (no_text c1 && match rev rest with [] => true | cl :: _ => no_text cl end); [discriminate|].
+    intros H; inversion H; right; right; reflexivity.
   - destruct (r =? r_funcdef G).
     + assert (GE: forall cs e', regroup_func G cs = PErr e' -> conv_err e').
       { induction cs as [|c t IH]; intros e' H; simpl in H; [inversion H; left; reflexivity|].
@@ -38,16 +50,17 @@ Proof.
         - destruct k as [pr| |].
           + destruct (pr =? r_parameters G).
             * destruct (existsb is_param (removelast (tl pcs))); [discriminate|].
-              destruct (create_params G (removelast (tl pcs))); [|inversion H; left; reflexivity].
-              destruct pcs as [|t0 pcs]; [inversion H; right; reflexivity|]. destruct (rev (t0 :: pcs)); inversion H; right; reflexivity.
+              destruct (create_params G (removelast (tl pcs))) eqn:CP; [|inversion H; subst; eapply create_params_err; exact CP].
+              destruct pcs as [|t0 [|t1 pcs]]; [inversion H; right; left; reflexivity|inversion H; right; right; reflexivity|].
+              destruct (rev (t0 :: t1 :: pcs)); inversion H; right; left; reflexivity.
             * destruct (regroup_func G t) eqn:E; [discriminate|]. inversion H; subst. eapply IH. reflexivity.
           + destruct (regroup_func G t) eqn:E; [discriminate|]. inversion H; subst. eapply IH. reflexivity.
           + destruct (regroup_func G t) eqn:E; [discriminate|]. inversion H; subst. eapply IH. reflexivity. }
       destruct (regroup_func G ns) eqn:E; [discriminate|]. intros H. inversion H; subst. eapply GE. exact E.
     + destruct ((r =? r_lambdef G) || (r =? r_lambdef_nocond G)); [|discriminate].
-      destruct ns as [|kw rest]; [intros H; inversion H; right; reflexivity|].
+      destruct ns as [|kw rest]; [intros H; inversion H; right; left; reflexivity|].
       destruct (existsb is_param (firstn (length rest - 2) rest)); [discriminate|].
-      destruct (create_params G (firstn (length rest - 2) rest)); [discriminate|]. intros H; inversion H; left; reflexivity.
+      destruct (create_params G (firstn (length rest - 2) rest)) eqn:CP; [discriminate|]. intros H; inversion H; subst. eapply create_params_err. exact CP.
 Qed.
 
 (* one abstract pop is one Engine.pop (or a conversion failure) *)
